@@ -325,6 +325,45 @@ var (
 	ZIndex            = regexp.MustCompile(`^[\-]?[0-9]+$`)
 )
 
+// trimSpace removes CSS white space from both ends (strings.TrimSpace would
+// also remove U+00A0 and the other Unicode spaces, which are ordinary name
+// characters in CSS: "\u00a0red" is not the colour red)
+func trimSpace(s string) string {
+	return strings.Trim(s, " \t\n\f\r")
+}
+
+// splitAtSolidus takes the space separated components of a shorthand value
+// and splits those that hold exactly one solidus. The solidus may be attached
+// on both sides ("12px/1.5"), on one ("12px/ 1.5") or stand on its own
+// ("12px / 1.5"); ok is false when nothing stands before or after it.
+func splitAtSolidus(components []string) (out []string, ok bool) {
+	seen := false         // a component other than a solidus was seen
+	afterSolidus := false // the last thing seen was a solidus
+	for _, c := range components {
+		if strings.Count(c, "/") != 1 {
+			if c != "" {
+				seen, afterSolidus = true, false
+			}
+			out = append(out, c)
+			continue
+		}
+		parts := strings.SplitN(c, "/", 2)
+		if parts[0] != "" {
+			out = append(out, parts[0])
+			seen, afterSolidus = true, false
+		}
+		if !seen || afterSolidus {
+			return nil, false
+		}
+		afterSolidus = true
+		if parts[1] != "" {
+			out = append(out, parts[1])
+			afterSolidus = false
+		}
+	}
+	return out, !afterSolidus
+}
+
 func multiSplit(value string, seps ...string) []string {
 	curArray := []string{value}
 	for _, i := range seps {
@@ -403,7 +442,7 @@ func splitValues(value string) []string {
 				return r + ('a' - 'A')
 			}
 			return r
-		}, strings.TrimSpace(strippedValue)))
+		}, trimSpace(strippedValue)))
 	}
 	return newValues
 }
@@ -538,18 +577,10 @@ func BackgroundHandler(value string) bool {
 	if in([]string{value}, values) {
 		return true
 	}
-	splitVals := strings.Split(value, " ")
-	newSplitVals := []string{}
-	for _, i := range splitVals {
-		if parts := strings.Split(i, "/"); len(parts) == 2 {
-			if parts[0] == "" || parts[1] == "" {
-				// nothing before or after the solidus
-				return false
-			}
-			newSplitVals = append(newSplitVals, parts...)
-		} else {
-			newSplitVals = append(newSplitVals, i)
-		}
+	newSplitVals, ok := splitAtSolidus(strings.Split(value, " "))
+	if !ok {
+		// nothing before or after a solidus
+		return false
 	}
 	usedFunctions := []func(string) bool{
 		ColorHandler,
@@ -1145,18 +1176,10 @@ func FontHandler(value string) bool {
 	if in([]string{value}, values) {
 		return true
 	}
-	splitVals := strings.Split(value, " ")
-	newSplitVals := []string{}
-	for _, i := range splitVals {
-		if parts := strings.Split(i, "/"); len(parts) == 2 {
-			if parts[0] == "" || parts[1] == "" {
-				// nothing before or after the solidus
-				return false
-			}
-			newSplitVals = append(newSplitVals, parts...)
-		} else {
-			newSplitVals = append(newSplitVals, i)
-		}
+	newSplitVals, ok := splitAtSolidus(strings.Split(value, " "))
+	if !ok {
+		// nothing before or after a solidus
+		return false
 	}
 	usedFunctions := []func(string) bool{
 		FontStyleHandler,
@@ -1175,7 +1198,7 @@ func FontFamilyHandler(value string) bool {
 		return true
 	}
 	for _, i := range splitVals {
-		i = strings.TrimSpace(i)
+		i = trimSpace(i)
 		// (MatchString: FindString returns "" for no match as well as for
 		// an empty family name)
 		if !Font.MatchString(i) {
@@ -1260,12 +1283,10 @@ func GridHandler(value string) bool {
 	if in([]string{value}, values) {
 		return true
 	}
-	splitVals := strings.Split(value, " ")
-	newSplitVals := []string{}
-	for _, i := range splitVals {
-		if i != "/" {
-			newSplitVals = append(newSplitVals, i)
-		}
+	newSplitVals, ok := splitAtSolidus(strings.Split(value, " "))
+	if !ok {
+		// nothing before or after a solidus
+		return false
 	}
 	usedFunctions := []func(string) bool{
 		GridTemplateRowsHandler,
@@ -1895,7 +1916,7 @@ func TransformHandler(value string) bool {
 		trimValue := strings.Split(strings.TrimSuffix(subValue, ")"), ",")
 		valid := true
 		for _, i := range trimValue {
-			if !LengthHandler(strings.TrimSpace(i)) {
+			if !LengthHandler(trimSpace(i)) {
 				valid = false
 				break
 			}
@@ -1916,7 +1937,7 @@ func TransformHandler(value string) bool {
 		trimValue := strings.Split(subValue, ",")
 		valid := true
 		for _, i := range trimValue {
-			if !LengthHandler(strings.TrimSpace(i)) {
+			if !LengthHandler(trimSpace(i)) {
 				valid = false
 				break
 			}
